@@ -16,7 +16,7 @@ from vlib.core import diff_lines, ddmin
 
 def gen_scenario(rng):
     limit = rng.choice([1, 1, 2, 2, 3, 5])
-    maxlen = rng.choice([0, 4, 6])
+    maxlen = rng.choice([0, 4, 6, 9, 12])
     ops = [f"reset limit={limit} maxlen={maxlen}"]
     nch = limit + rng.choice([1, 2, 3])
     lens = {}
@@ -46,14 +46,10 @@ def gen_scenario(rng):
                 # shared-poll channels live in their own name space ("poll:<n>", ids 200+)
                 kind = "s"
                 ch = 200 + ch
-            base = len(f"c{ch}")
+            base = len(f"c{ch}") if ch < 200 else len(f"poll:{ch}")
             if ch not in lens:
                 lens[ch] = base
-                if ch >= 200:
-                    # the shared-poll path has no channel-name length check (names are "poll:<n>"); the
-                    # length conjunct is exercised on the regular and map paths only
-                    lens[ch] = 0
-                elif maxlen and rng.random() < 0.25:
+                if maxlen and rng.random() < 0.25:
                     lens[ch] = max(base, rng.choice([maxlen, maxlen + 1, maxlen + 3]))
             ln = lens[ch]
             if ch in busy:
